@@ -8,8 +8,8 @@ FUNCTIONS = ['emd.spectra.holospectrum (squash_time in {False, sum, mean})', 'em
              'emd.support.ensure_2d / ensure_equal_dims']
 BOUNDS = {
     'quick': 'first-level frequencies [T x M] and second-level frequency/amplitude arrays [T x M x K] of unbounded symbolic reals with '
-             'T*M*K <= 2 (T,M,K <= 2); carrier bins linear 1..2 bins on [1,5], AM bins linear 1..3 bins on [0,3] (different sizes so that '
-             'a transposed fold is visible); modes {energy, amplitude}; all three squash_time settings',
+             'T*M*K <= 2 with carrier bins linear 1..2 on [1,5] and AM bins linear 1..3 on [0,3] (different sizes so that '
+             'a transposed fold is visible), and T*M*K = 4 (2x1x2, 1x2x2, 2x2x1) with at most 2 cells; modes {energy, amplitude}; all three squash_time settings',
     'thorough': 'T*M*K <= 4 (e.g. 2x1x2, 1x2x2, 2x2x1), carrier bins 1..3, AM bins 1..3',
 }
 OUTSIDE = 'larger arrays; float rounding of bin edges; NaN/inf'
@@ -22,7 +22,7 @@ BUDGET_S = {'quick': 150, 'thorough': 900}
 def configs(tier):
     out = []
     if tier == 'quick':
-        shapes = [(1, 1, 1), (2, 1, 1), (1, 2, 1), (1, 1, 2)]
+        shapes = [(1, 1, 1), (2, 1, 1), (1, 2, 1), (1, 1, 2), (2, 1, 2), (1, 2, 2), (2, 2, 1)]
         bins = [(1, 1), (2, 3), (2, 1)]
     else:
         shapes = [(1, 1, 1), (2, 1, 1), (1, 2, 1), (1, 1, 2), (2, 1, 2), (1, 2, 2), (2, 2, 1)]
@@ -30,6 +30,8 @@ def configs(tier):
     for (T, M, K) in shapes:
         for (nc, na) in bins:
             if T * M * K >= 4 and nc * na > 2:
+                continue
+            if T * M * K >= 8 and nc * na > 1:
                 continue
             for mode in ('energy', 'amplitude'):
                 if mode == 'amplitude' and (nc, na) != (2, 3):
